@@ -22,6 +22,7 @@ pub const POINTS: &[&str] = &[
     "compaction.step",
     "gc.before_delete",
     "gc.after_delete",
+    "worker.tasks_drained",
 ];
 
 /// role -1 = a database background thread, >= 0 = client thread index
@@ -32,6 +33,10 @@ pub struct Directive {
     /// hold at the n-th hit (0-based) of that point by that role
     pub nth: u32,
     pub max_hold_ms: u32,
+    /// keep holding for this long after all other clients are done (the harness closes the
+    /// database right after the clients finish, so the held thread resumes inside the close)
+    #[serde(default)]
+    pub linger_ms: u32,
 }
 
 pub struct SchedState {
@@ -125,6 +130,9 @@ fn on_point(name: &'static str) {
             let max = Duration::from_millis(d.max_hold_ms as u64);
             while !st.others_done(me) && t0.elapsed() < max {
                 std::thread::sleep(Duration::from_micros(200));
+            }
+            if d.linger_ms > 0 && st.others_done(me) {
+                std::thread::sleep(Duration::from_millis(d.linger_ms as u64));
             }
             if in_apply {
                 st.writer_held.store(false, Ordering::SeqCst);
